@@ -7,8 +7,10 @@ HDRS = [
     '@NS500414:455:HYLVHBGX5:3:13601:9882:%d',                      # short 7 field header
     '@Is:NS500414;RN:455;Fc:HYLVHBGX5;La:3;Ti:13601;CX:9882;CY:%d;Fi:N;CN:0;aa:CGTACT;aA:CGTACT;aI:1',   # already demultiplexed
 ]
-R1S = ['ACGTTGCAAGCTTACATGACGTTGCAAGTCAGGTCATTGACTTGACC', 'ACGTTGCAAG', '', 'NNNNNNNNNNNNNNNNNNNNNNNNACGT']
-R2S = ['GATTACAGATTACAGGCATGCATTAGGACCA', 'GATTACAG', '', 'NNNNNNNNNNNNNNGATTACA']
+_F1, _F2 = 'ACGTTGCAAGCTTACATGACGTTGCAAGTCAGGTCATTGACTTGACC', 'GATTACAGATTACAGGCATGCATTAGGACCA'
+# content classes of a pair: full / both shorter than the prefix / both empty / N-rich / full mate 1 with an empty mate 2 / full mate 1 with a mate 2 as long as a random primer
+R1S = [_F1, 'ACGTTGCAAG', '', 'NNNNNNNNNNNNNNNNNNNNNNNNACGT', _F1, _F1]
+R2S = [_F2, 'GATTACAG', '', 'NNNNNNNNNNNNNNGATTACA', '', 'GATTAC']
 QUAL = 'FFFFFFFFFFFFFFFFIIIIIIIIIIIIIIIIIIIIIIIIIIIIIIIIIIIIIIIIIIIIIIII'
 
 
